@@ -77,6 +77,10 @@ Tables == <<
       <<"0 0.25 x", "1 1.5 y", "2 2.5 z">>),
   Tab(<<Col("on", "bool", "", "bool", 0, <<B(TRUE), B(FALSE)>>),
         Col("i", "float", "W/m2", "float", 64, <<Q(234,100,0), Q(94,10,0)>>)>>,
-      <<"true 2.34", "false 9.4">>)
+      <<"true 2.34", "false 9.4">>),
+  \* text cells that look like numbers or keywords stay text, character by character
+  Tab(<<Col("w", "str", "", "str", 0, <<S("1.10"), S("true"), S("1e3")>>),
+        Col("k", "int", "", "int", 32, <<Q(1,1,0), Q(2,1,0), Q(3,1,0)>>)>>,
+      <<"1.10 1", "true 2", "1e3 3">>)
 >>
 =============================================================================
